@@ -1,6 +1,7 @@
 /- Line-protocol driver for the C15 model.
    {"op":"uniq","xor":b,"xs":[n…]}  ->  keys=[…] true=True|False
-   {"op":"tsort","dag":[[n,[dep…]],…]}  ->  [n, …] | cycle -/
+   {"op":"tsort","dag":[[n,[dep…]],…]}  ->  [n, …] | cycle
+   {"op":"absorb","ops":[[[lit…],dual],…]}  ->  [true|false, …] -/
 import Lean.Data.Json
 import SqlglotModel.Model.Determinism
 
@@ -23,6 +24,11 @@ def handle (line : String) : Except String String := do
     match tsort d with
     | some l => pure (toString l)
     | none => pure "cycle"
+  | "absorb" =>
+    let ops ← (← (← j.getObjVal? "ops").getArr?).toList.mapM fun e => do
+      let a ← e.getArr?
+      if h : a.size = 2 then pure (AOp.mk (← jNats a[0]) (← a[1].getBool?)) else throw "operand"
+    pure (toString (absorbPass ops))
   | _ => throw "unknown op"
 
 partial def loop (h : IO.FS.Stream) : IO Unit := do
